@@ -1,6 +1,6 @@
 #!/bin/bash
-# usage: confirm_seed.sh Cnn a|b   -- confirms a seeded change in a scratch worktree and stores it under /verif/seeded/
-ID=$1; V=$2; SRC=/tmp/mut/${ID}_out/$V; WT=/tmp/confirm_wt_$$; DST=/verif/seeded/${ID}$V
+# usage: confirm_seed.sh Cnn a|b [srcbase] [dest-suffix]  -- confirms a seeded change in a scratch worktree and stores it under /verif/seeded/
+ID=$1; V=$2; BASE=${3:-/tmp/mut}; DV=${4:-$V}; SRC=$BASE/${ID}_out/$V; WT=/tmp/confirm_wt_$$; DST=/verif/seeded/${ID}$DV
 [ -f $SRC/patch.diff ] || { echo "no patch"; exit 2; }
 git -C /repo worktree add -q $WT HEAD || exit 2
 cd $WT
@@ -17,13 +17,13 @@ if git apply $SRC/patch.diff 2>/dev/null; then APPLY=git-apply; elif patch -p1 -
 /venv/bin/python $SRC/demo.py > $WT/demo.out 2>&1; MUT_RC=$?
 T=$(run_tests)
 git diff > $WT/current.diff
-echo "$ID$V apply=$APPLY demo_clean_rc=$CLEAN_RC demo_mutant_rc=$MUT_RC baseline_pass/total_pass=$T files=$(git diff --name-only | tr '\n' ' ')"
+echo "$ID$DV apply=$APPLY demo_clean_rc=$CLEAN_RC demo_mutant_rc=$MUT_RC baseline_pass/total_pass=$T files=$(git diff --name-only | tr '\n' ' ')"
 if [ "$APPLY" != FAILED ] && [ $CLEAN_RC -eq 0 ] && [ $MUT_RC -ne 0 ] && [ "${T%% *}" = 59 ]; then
   mkdir -p $DST; cp $WT/current.diff $DST/patch.diff; cp $SRC/demo.py $DST/demo.py; cp $SRC/notes.md $DST/notes.md
   tail -3 $WT/demo.out > $DST/demo_output_with_change.txt
   /venv/bin/python - <<PY
 import json
-json.dump({"property":"$ID","variant":"$V","origin":"independent sub-agent given only the property text and a scratch worktree",
+json.dump({"property":"$ID","variant":"$DV","origin":"independent sub-agent given only the property text and a scratch worktree",
  "needs_to_manifest": open("$SRC/notes.md").read()[:1500],
  "confirmed":{"applies":"$APPLY","demo_exit_on_clean_tree":$CLEAN_RC,"demo_exit_with_change":$MUT_RC,"baseline_tests_passing_with_change":"${T%% *}/59","all_tests_passing_with_change":"${T##* }"},
  "commands":["git apply patch.diff (in a scratch worktree of /repo HEAD)","/venv/bin/python demo.py","pytest (BASELINE cmd)"]}, open("$DST/meta.json","w"), indent=1)
